@@ -127,6 +127,11 @@ def unicode_strings(rng, n):
                 parts.append(chr(rng.choice([rng.randrange(0x20), rng.randrange(0x80, 0x3000), rng.randrange(0x3000, 0xA000),
                                              rng.randrange(0xE000, 0x10000), rng.randrange(0x10000, 0x110000)])))
         out.append(''.join(parts))
+    # a NUL (or another character no token starts with) as the very FIRST character: the error is at position 0, before any line
+    # has been recorded
+    for first in ('\x00', '\x00\n', '\x00令甲设为1', '\x00\x00', '\x00    （显示：1）', '~', '\x7f令甲', '\ufeff\x00', '\r\x00'):
+        out.append(first)
+        out.append(first + rng.choice(words))
     return out
 
 
